@@ -58,6 +58,8 @@ DAILY_BASE = {
     "gaps":  ("2019-01-01", 365, TZ, CURVE_A, 1.0),
     "poor":  ("2019-01-01", 365, TZ, None, 0.0),
     "east":  ("2019-01-01", 365, TZ_OTHER, CURVE_A, 1.0),
+    "long":  ("2018-10-01", 400, TZ, CURVE_A, 1.0),       # more than 365 days
+    "neggas": ("2019-01-01", 365, TZ, CURVE_A, 1.0),     # a gas meter with a few negative readings
     "netpoor": ("2019-01-01", 365, TZ, None, 0.0),       # a net-metered building that exports more than it draws: spiky usage, mean below zero
     "tgaps": ("2019-01-01", 365, TZ, CURVE_A, 1.0),      # temperature missing for short spells (hourly: 3 afternoon hours on 60 days; daily: 12 days), usage complete
 }
@@ -164,6 +166,8 @@ def build(fam, kind, name, obs_variant="orig", ghi=False, supp=False):
                 obs = daily_usage(T, idx, curve, noise, tag)
             if name == "gaps":
                 obs[40:95] = np.nan
+            if name == "neggas":
+                obs[[33, 150, 151, 290]] = -5.0
             if name == "tgaps":
                 T = T.copy()
                 T[np.arange(days) % 30 == 7] = np.nan
@@ -177,7 +181,7 @@ def build(fam, kind, name, obs_variant="orig", ghi=False, supp=False):
             cols["observed"] = obs
         if kind != "baseline":
             idx, cols = dup_rows(name, idx, cols, False)
-        return pd.DataFrame(cols, index=idx), {"is_electricity_data": True}
+        return pd.DataFrame(cols, index=idx), {"is_electricity_data": not (kind == "baseline" and name == "neggas")}
     if fam in ("hourly", "caltrack"):
         if kind == "baseline":
             start, days, tz, curve, noise = DAILY_BASE[name]
@@ -191,6 +195,8 @@ def build(fam, kind, name, obs_variant="orig", ghi=False, supp=False):
                 obs = hourly_usage(T, idx, hc, 0.1, tag)
             if name == "gaps":
                 obs[40 * 24:95 * 24] = np.nan
+            if name == "neggas":
+                obs[[800, 3600, 3601, 7000]] = -0.5
             if name == "tgaps":
                 T = T.copy()
                 hr = idx.hour.to_numpy()
@@ -217,5 +223,5 @@ def build(fam, kind, name, obs_variant="orig", ghi=False, supp=False):
             cols["observed"] = obs
         if kind != "baseline":
             idx, cols = dup_rows(name, idx, cols, True)
-        return pd.DataFrame(cols, index=idx), {"is_electricity_data": True}
+        return pd.DataFrame(cols, index=idx), {"is_electricity_data": not (kind == "baseline" and name == "neggas")}
     raise ValueError(fam)
